@@ -21,13 +21,6 @@ use std::panic::{catch_unwind, AssertUnwindSafe};
 pub const REC: usize = std::mem::size_of::<libc::input_event>();
 pub const EV_SYN: u16 = 0; pub const EV_KEY: u16 = 1; pub const EV_REL: u16 = 2; pub const EV_MSC: u16 = 4; pub const EV_SW: u16 = 5; pub const EV_LED: u16 = 17;
 
-/// Every key code the tool knows (the enum's FromPrimitive over the kernel's code space).
-pub fn all_known_keys() -> Vec<KeyCode> {
-  let mut v = vec![];
-  for c in 0u16..0x400 { if let Some(k) = <KeyCode as FromPrimitive>::from_u16(c) { v.push(k); } }
-  v
-}
-
 /// Build one record the way the kernel lays out `struct input_event` (through the libc type, not
 /// through the tool's own serializer).
 pub fn kernel_record(sec: i64, usec: i64, type_: u16, code: u16, value: i32) -> Vec<u8> {
@@ -146,6 +139,8 @@ impl ByteLayer for PipeLayer {
   fn read_tab(&mut self) -> Result<Option<bool>, String> {
     match self.drv.next_tablet() { Ok(VNext::One(on)) => Ok(Some(on)), Ok(VNext::Busy) => Ok(None), Ok(VNext::End) => Err("the real driver reported End on a tablet pipe that is still open".into()), Err(e) => Err(e) }
   }
+  fn raw_next_keyboard(&mut self) -> Result<VNext<Event>, String> { self.drv.next_keyboard() }
+  fn raw_next_tablet(&mut self) -> Result<VNext<bool>, String> { self.drv.next_tablet() }
   fn send(&mut self, evs: &Vec<Event>) -> Result<Vec<Event>, String> {
     self.drv.send(evs).map_err(|e| format!("real writer failed on a pipe: {}", e))?;
     self.stats.batches += 1;
